@@ -1,10 +1,11 @@
 import SmtpV.Model.Server
+import SmtpV.Spec.Monitors
 /-!
 Line-protocol glue for the `conv` probe: parse a case line into configuration, backend script
 and wire; print the model's trace in the format of DESIGN.md Appendix D.
 -/
 namespace SmtpV.Driver.Conv
-open SmtpV SmtpV.Server SmtpV.Reply
+open SmtpV SmtpV.Server SmtpV.Reply SmtpV.Spec
 
 def natOf (s : String) : Nat := s.toNat?.getD 0
 def intOf (s : String) : Int := s.toInt?.getD 0
@@ -111,6 +112,7 @@ def showEv : Ev → String
     "SN:" ++ (match resp with | none => "nil" | some x => hexOfBytes x) ++ s!":{hexOfBytes ch}:{b01 d}:{showRes r}"
   | .dataBegin id k => s!"DB:{id}:{k}"
   | .tlsStart ok => s!"TLS:{b01 ok}"
+  | .cmd l => "CMD:" ++ hexOfBytes l
   | .panicLog => "PANIC"
   | .close => "CLOSE"
 
@@ -143,9 +145,84 @@ def probe (f : List String) : String :=
     let (cfg, tlsMode) := parseCfg cfgS
     let (plain, tls, e) := parseInput inS
     let s := serve (initState cfg tlsMode (parseBackend beS) plain tls e)
-    let evs := coalesce (s.evs.reverse.filter fun e => match e with | .tlsStart _ => false | _ => true)
+    let evs := coalesce (s.evs.reverse.filter fun e => match e with | .tlsStart _ => false | .cmd _ => false | _ => true)
     let ds := (s.drecs.map showDRec).mergeSort (· ≤ ·)
     String.intercalate ";" (evs.map showEv) ++ "\t" ++ String.intercalate ";" ds ++ s!"\tWAC={s.wac}"
   | _ => "DRIVER-BAD-CASE"
+
+
+/-! ### reading a recorded trace back (implementation answers) and judging it -/
+
+def parseMailOpts (s : String) : MailOpts :=
+  let m := kvs s
+  { body := bytesOfHex (look m "body"), size := natOf (look m "size"), requireTLS := look m "reqtls" == "1",
+    utf8 := look m "utf8" == "1", ret := bytesOfHex (look m "ret"), envid := bytesOfHex (look m "envid"),
+    auth := if look m "auth" == "nil" then none else some (bytesOfHex (look m "auth")) }
+
+def parseRcptOpts (s : String) : RcptOpts :=
+  let m := kvs s
+  let n := look m "notify"
+  { notify := if n == "" then [] else (n.splitOn "+").map bytesOfHex, orcptType := bytesOfHex (look m "orcpttype"),
+    orcpt := bytesOfHex (look m "orcpt"), rrvs := if look m "rrvs" == "nil" then none else some (intOf (look m "rrvs")) }
+
+def parseEv (s : String) : Option Ev :=
+  match s.splitOn ":" with
+  | ["W", h] => some (.w (bytesOfHex h))
+  | ["NS", id, h, t, r] => some (.ns (natOf id) (bytesOfHex h) (t == "1") (parseRes r))
+  | ["M", id, f, o, r] => some (.mail (natOf id) (bytesOfHex f) (parseMailOpts o) (parseRes r))
+  | ["RC", id, t, o, r] => some (.rcpt (natOf id) (bytesOfHex t) (parseRcptOpts o) (parseRes r))
+  | ["RS", id] => some (.reset (natOf id))
+  | ["LO", id] => some (.logout (natOf id))
+  | ["AM", id, m, r] => some (.authMech (natOf id) (bytesOfHex m) (parseRes r))
+  | ["SN", resp, ch, d, r] =>
+    some (.sasl (if resp == "nil" then none else some (bytesOfHex resp)) (bytesOfHex ch) (d == "1") (parseRes r))
+  | ["DB", id, k] => some (.dataBegin (natOf id) (natOf k))
+  | ["PANIC"] => some .panicLog
+  | ["CLOSE"] => some .close
+  | _ => none
+
+def parseRdEnd (s : String) : RdEnd :=
+  match s with
+  | "none" => .none | "eof" => .eof | "ueof" => .ueof | "toolarge" => .tooLarge | "reset" => .reset
+  | "toolong" => .tooLong | "timeout" => .timeout | "closed" => .closed | _ => .panicked
+
+def parseDRec (s : String) : Option DRec :=
+  match s.splitOn ":" with
+  | ["D", k, id, oct, e, r] =>
+    some { k := natOf k, sess := natOf id, octets := bytesOfHex oct, rdEnd := parseRdEnd e, ret := parseRes r, finished := true }
+  | _ => none
+
+/-- an answer line → `(events, records, unparsable pieces)` -/
+def parseAnswer (a : List String) : List Ev × List DRec × List String :=
+  match a with
+  | evS :: dS :: _ =>
+    let evParts := if evS == "" then [] else evS.splitOn ";"
+    let dParts := if dS == "" then [] else dS.splitOn ";"
+    let evs := evParts.map (fun p => (p, parseEv p))
+    let ds := dParts.map (fun p => (p, parseDRec p))
+    (evs.filterMap (·.2), ds.filterMap (·.2),
+     (evs.filter (·.2.isNone)).map (·.1) ++ (ds.filter (·.2.isNone)).map (·.1))
+  | _ => ([], [], ["no answer"])
+
+/-- `mon PID conv CFG BACKEND INPUT ## events drecs wac` -/
+def monitor (pid : String) (c a : List String) : String :=
+  match c with
+  | [_, cfgS, _beS, _inS] =>
+    let (cfg, tlsMode) := parseCfg cfgS
+    let (evs, drecs, junk) := parseAnswer a
+    let drecs := drecs.mergeSort (fun x y => x.k ≤ y.k)
+    let bad : List String :=
+      (if junk.isEmpty then [] else ["unexpected observation: " ++ String.intercalate "," (junk.take 3)]) ++
+      (match pid with
+       | "C03" => Spec.Mon.check3 cfg evs
+       | "C04" => Spec.Mon.check4 cfg.lmtp drecs evs
+       | "C08" => Spec.Mon.check8 evs
+       | "C09" => Spec.Mon.check9 cfg evs
+       | "C10" => Spec.Mon.check10 cfg (tlsMode == "implicit") evs
+       | "C12" => Spec.Mon.check12 cfg evs
+       | "C19" => Spec.Mon.check19 evs ++ Spec.Mon.check8 evs
+       | _ => Spec.Mon.check8 evs ++ Spec.Mon.check3 cfg evs)
+    if bad.isEmpty then "ok" else "bad: " ++ String.intercalate "; " bad
+  | _ => "bad: unparsable case"
 
 end SmtpV.Driver.Conv
